@@ -1,6 +1,6 @@
 (* C08 — property theorems (statements only; proofs live in Proofs*.v).  See notes/C08.md for the status of each. *)
 From Coq Require Import List ZArith QArith Qabs Bool.
-Require Import QV.C08.Model QV.C08.Spec QV.C08.Wf QV.C08.Proofs QV.C08.ProofsVec QV.C08.ProofsRev QV.C08.ProofsConst QV.C08.ProofsTotal QV.C08.ProofsProper QV.C08.ProofsCtor QV.C08.Hist QV.C08.ProofsHist QV.C08.ProofsTrafo QV.C08.ProofsConstT QV.C08.ProofsTotalT QV.C08.ProofsTable QV.C08.ProofsPar QV.C08.ProofsOp QV.C08.ProofsFlat.
+Require Import QV.C08.Model QV.C08.Spec QV.C08.Wf QV.C08.Proofs QV.C08.ProofsVec QV.C08.ProofsRev QV.C08.ProofsConst QV.C08.ProofsTotal QV.C08.ProofsProper QV.C08.ProofsCtor QV.C08.Hist QV.C08.ProofsHist QV.C08.ProofsTrafo QV.C08.ProofsConstT QV.C08.ProofsTotalT QV.C08.ProofsTable QV.C08.ProofsPar QV.C08.ProofsOp QV.C08.ProofsFlat QV.C08.ProofsDen.
 Import ListNotations.
 Open Scope Q_scope.
 
@@ -233,3 +233,12 @@ Theorem C08_history_partial : forall w, no_trans w = true -> forall calls s,
   run_hist w calls s = map (fun call => get_sampled w (fst (fst call)) (snd call)) calls.
 Proof. exact history_independent_no_trans. Qed.
 Print Assumptions C08_history_partial.
+
+(* ---- the code denotes what DESIGN 4.4 says: for every well-formed waveform without transformations in which reversal
+   is applied to tables / function waveforms only, the pointwise meaning of the code on [0, duration) IS the denotation
+   (first-match pieces, mirrored leaves) that check_spec uses as its oracle.  Reversal around composites is refuted
+   (C08_reversed_junction_refuted, C08_total_reversed_refuted); transformations are only tested. ---- *)
+Theorem C08_sample_is_denotation : forall w, okb w = true -> plainrev w = true -> forall c t,
+  inb c (channels w) = true -> 0 <= t -> t < duration w -> den w c t = sample w c t.
+Proof. exact sample_is_den. Qed.
+Print Assumptions C08_sample_is_denotation.
